@@ -169,25 +169,60 @@ func exprString(e ast.Expr) string {
 	return "?"
 }
 
-// clauseFailStop reports whether a case clause's body ends by returning an
-// error-ish value / panicking (fail-stop), judged syntactically: its last
-// statement is a return, a panic call, or a call to a *Fatalf/AssertionFailedf.
-func clauseFailStop(cc *ast.CaseClause) bool {
+// clauseFailStop reports whether a case clause fails closed: somewhere in its body (nested
+// blocks included) it panics / calls a *Fatal* function, returns a non-nil value of type error,
+// or assigns a non-nil value to a variable or field of type error. A bare `return`, or a return
+// of non-error values, does NOT count: `default: return i.mergeForward(key)` treats an unknown
+// kind like a known one.
+func clauseFailStop(p *packages.Package, cc *ast.CaseClause) bool {
 	if cc == nil || len(cc.Body) == 0 {
 		return false
 	}
-	switch s := cc.Body[len(cc.Body)-1].(type) {
-	case *ast.ReturnStmt:
-		return true
-	case *ast.ExprStmt:
-		if call, ok := s.X.(*ast.CallExpr); ok {
-			name := exprString(call.Fun)
-			if name == "panic" || hasSuffixStr(name, "Fatalf") || hasSuffixStr(name, "Fatal") {
-				return true
-			}
-		}
+	isErr := func(e ast.Expr) bool {
+		t := p.TypesInfo.TypeOf(e)
+		return t != nil && isErrorType(t)
 	}
-	return false
+	isNil := func(e ast.Expr) bool {
+		id, ok := e.(*ast.Ident)
+		return ok && id.Name == "nil"
+	}
+	found := false
+	for _, st := range cc.Body {
+		ast.Inspect(st, func(n ast.Node) bool {
+			if found {
+				return false
+			}
+			switch s := n.(type) {
+			case *ast.FuncLit:
+				return false
+			case *ast.ExprStmt:
+				if call, ok := s.X.(*ast.CallExpr); ok {
+					name := exprString(call.Fun)
+					if name == "panic" || hasSuffixStr(name, "Fatalf") || hasSuffixStr(name, "Fatal") {
+						found = true
+					}
+				}
+			case *ast.ReturnStmt:
+				for _, r := range s.Results {
+					if isErr(r) && !isNil(r) {
+						found = true
+					}
+					// return f(...) where f's last result is an error: the callee decides
+					if tup, ok := p.TypesInfo.TypeOf(r).(*types.Tuple); ok && tup.Len() > 0 && isErrorType(tup.At(tup.Len()-1).Type()) {
+						found = true
+					}
+				}
+			case *ast.AssignStmt:
+				for i, l := range s.Lhs {
+					if i < len(s.Rhs) && isErr(l) && !isNil(s.Rhs[i]) {
+						found = true
+					}
+				}
+			}
+			return true
+		})
+	}
+	return found
 }
 
 func hasSuffixStr(s, suf string) bool {
